@@ -234,6 +234,15 @@ def work_e2e(p):
             open(os.path.join(sd, mname + ".py"), "w").write("\n".join(body))
             mods.append((mname, fnames))
             all_funcs += [(mname, fn) for fn in fnames] + [(mname, "UK.um"), (mname, "twin")]
+        # modules whose names only importlib can load (a leading digit as in migrations, a hyphen, a numeric package directory)
+        odd = []
+        if spec.get("odd_names"):
+            os.makedirs(os.path.join(sd, "2024"))
+            for oi, rel in enumerate([f"0001_vfuser_{spec['name']}.py", f"vfuser-tools_{spec['name']}.py", os.path.join("2024", f"vfuser_stats_{spec['name']}.py")]):
+                oname = rel[:-3].replace(os.sep, ".")
+                open(os.path.join(sd, rel), "w").write(f"def odd_fn{oi}(a):\n    return a\n\n\nclass OK{oi}:\n    def om(self, a):\n        return a\n")
+                odd.append((oname, oi))
+                all_funcs += [(oname, f"odd_fn{oi}"), (oname, f"OK{oi}.om")]
         app = f"vfapp_{spec['name']}"
         os.makedirs(os.path.join(sd, app))
         open(os.path.join(sd, app, "__init__.py"), "w").write("")
@@ -255,6 +264,13 @@ def work_e2e(p):
             script.append("app_entry(5)")
             called.add((f"{app}.__main__", "entry"))
             called.add((f"{app}.__main__", "parse"))
+        if odd:
+            script.append("import importlib")
+            for oname, oi in odd:
+                script += [f"_odd{oi} = importlib.import_module({oname!r})", f"_odd{oi}.odd_fn{oi}(1)", f"_odd{oi}.OK{oi}().om('s')"]
+                called.add((oname, f"odd_fn{oi}"))
+                called.add((oname, f"OK{oi}.om"))
+            res.count("e2e_scripts_with_modules_only_importlib_can_name")
         script += ["main_helper(1)", "MainK().mm(2)", "textwrap.dedent(' y')", "import json; json.dumps({'a': 1})", ""]
         double = spec.get("double_import")
         if double:
@@ -302,7 +318,7 @@ def work_e2e(p):
         if main_rows:
             res.violation("main-function-recorded", f"rows for __main__ functions: {sorted(main_rows)}", wit)
         foreign = {x for x in rows if x[0] != "__main__" and x not in accepted}
-        lib = {x for x in foreign if not x[0].startswith(("vfuser", "vfapp")) and x[0] != "script"}
+        lib = {x for x in foreign if "vfuser" not in x[0] and not x[0].startswith("vfapp") and x[0] != "script"}
         if lib:
             res.violation("rejected-library-function-recorded", f"rows for library functions: {sorted(lib)[:5]} (mode {mode})", wit)
         rej = foreign - lib
@@ -350,7 +366,7 @@ def run(ck):
             ck.merge(r)
     nscripts = 72 if quick else 600
     specs = [{"name": f"s{ck.seed}_{i}", "seed": f"C17:{ck.seed}:{i}", "mode": ["default", "allow", "custom"][i % 3],
-              "double_import": [None, "relative", None, "absolute"][(i // 3) % 4]} for i in range(nscripts)]
+              "double_import": [None, "relative", None, "absolute"][(i // 3) % 4], "odd_names": i % 2 == 1} for i in range(nscripts)]
     m = min(n, nscripts)
     for r in core.pmap("vf.props.c17:work_e2e", [{"scripts": specs[i::m]} for i in range(m)], timeout=3000):
         ck.merge(r)
@@ -370,6 +386,7 @@ def run(ck):
     ck.need("dotted_component_paths", 50)
     ck.need("twin_judgements", 4)
     ck.need("e2e_default", 5)
+    ck.need("e2e_scripts_with_modules_only_importlib_can_name", 5)
     ck.need("e2e_allow", 5)
     ck.need("e2e_custom", 5)
     ck.need("accepted_functions", 50)
